@@ -142,6 +142,8 @@ def make_cfg(seed, i):
         if g3.random() < 0.3:
             cfg["args"]["npt"] = int(n + 1 + g3.integers(1, n + 2))
         cfg["_family"] = "radius-cap"
+    if i % 4 == 2:
+        cfg["args"]["do_logging"] = False      # as most callers run it; nothing in this oracle needs the log
     campaign.maybe_failpoint(cfg, rng, p=0.12)
     if i % 12 == 3 and cfg["prob"]["n"] >= 2 and not cfg.get("reg"):
         # soft restart that adds points while the initial set is still growing (the point count must stay within restarts.max_npt)
